@@ -27,7 +27,8 @@ bb_view(long long rc, const unsigned char *out, size_t outn, bool full)
         print_hex(bb.data + bb.offset, bb.used - bb.offset);
     else
         printf(bb.data ? "?" : "-");
-    printf(" avail=%zu", bb.size - bb.used);
+    /* through the library's accessors */
+    printf(" avail=%zu rest=%zu", byte_buffer_avail(&bb), byte_buffer_rest(&bb));
 }
 
 static void
@@ -37,14 +38,17 @@ bb_op(int argc, char **argv)
     if (strcmp(op, "bb.null") == 0) {
         byte_buffer_null(&bb);
         printf("ok");
-    } else if (strcmp(op, "bb.set") == 0 && argc == 5) {
+    } else if ((strcmp(op, "bb.set") == 0 && argc == 5) || ((strcmp(op, "bb.space") == 0 || strcmp(op, "bb.use") == 0) && argc == 3)) {
         size_t n = 0;
         unsigned char *m = NULL;
         if (strcmp(argv[1], "null") != 0) {
             m = parse_hex(argv[1], &n);
             if (!m) { printf("bad-op"); return; }
         }
-        int rc = byte_buffer_set(&bb, m, parse_u64(argv[2]), parse_u64(argv[3]), parse_u64(argv[4]));
+        /* bb.space / bb.use: the two convenience set-ups (an empty buffer / a buffer that is completely filled) */
+        int rc = op[3] == 's' && op[4] == 'e' ? byte_buffer_set(&bb, m, parse_u64(argv[2]), parse_u64(argv[3]), parse_u64(argv[4]))
+               : op[3] == 's' ? byte_buffer_space(&bb, m, parse_u64(argv[2]))
+               : byte_buffer_use(&bb, m, parse_u64(argv[2]));
         if (rc == 0) { free(bbmem); bbmem = m; } else free(m);
         bb_view(rc, NULL, 0, true);
     } else if (strcmp(op, "bb.add") == 0 && argc == 2) {
